@@ -9,7 +9,7 @@ plain mode: a call is counted and forwarded unchanged.
 deep mode:  additionally every buffer argument (bytes object, or ctypes array as produced by
 c_uint8_ptr()/create_string_buffer()) is RELOCATED for the duration of the call into a guard-paged
 arena, exactly len(buffer) bytes long, end- or start-aligned (module variable PLACE); writable buffers
-are copied back afterwards.  Two arguments naming the same memory share one relocation (in-place
+are copied back afterwards (a bytes object only if the native code changed its relocated copy).  Two arguments naming the same memory share one relocation (in-place
 operation stays in-place); partially overlapping arguments are passed through untouched.  The native
 code therefore sees the same values at different addresses, and any access outside [buf, buf+len)
 faults - also for buffers the Python layer allocates itself (keys, nonces, scalars, digests...).
@@ -129,8 +129,14 @@ def _deep_call(f, args):
         return f(*new)
     finally:
         for a, dst, n, writable, can, ar in back:
-            if writable and n:
-                _memmove(a, dst, n)
+            if n:
+                if writable:
+                    _memmove(a, dst, n)
+                elif _string_at(dst, n) != a:
+                    # the native code wrote into a buffer the Python layer passed as a bytes object
+                    # (PKCS1_v1_5.decrypt does that with its output): mirror the write, as the real call would
+                    _memmove(a, dst, n)
+                    STATS["bytes_written_back"] = STATS.get("bytes_written_back", 0) + 1
             if _string_at(can, cl) != cm:
                 PROBLEMS.append("deep relocation (%s-aligned, %d bytes) of an argument of %s: bytes next to the buffer "
                                 "were overwritten" % (PLACE, n, getattr(f, "__name__", "?")))
